@@ -162,10 +162,10 @@ def shiftable(ref, v):
     return r[-1] == left or r[0] == right
 
 
-def trim_range(cols, c0, c1):
-    while c0 < c1 and cols[c0][0] in "ID":
+def trim_range(cols, c0, c1, kinds="ID"):
+    while c0 < c1 and cols[c0][0] in kinds:
         c0 += 1
-    while c1 > c0 and cols[c1 - 1][0] in "ID":
+    while c1 > c0 and cols[c1 - 1][0] in kinds:
         c1 -= 1
     return c0, c1
 
@@ -180,11 +180,14 @@ def rle(kinds):
     return [(k, n) for k, n in out]
 
 
-def make_alignment(rng, cols, c0, c1, style="M", skip=None, soft=(0, 0), hard=(0, 0), split_prob=0.0):
+def make_alignment(rng, cols, c0, c1, style="M", skip=None, soft=(0, 0), hard=(0, 0), split_prob=0.0, trim=True):
     """alignment of hap columns [c0, c1) minus the reference skip `skip` = (a, b) (reference interval).
+    With trim=False the alignment (and each block next to the skip) may begin / end with insertion or deletion columns:
+    the inserted bases are then the first / last aligned bases, followed by the read end, a clip or the skip.
     Returns dict(start, cigar [(letter, n)], seq, kept = set of column indices) or None if impossible."""
-    c0, c1 = trim_range(cols, c0, c1)
-    if c1 - c0 < 1:
+    # a block never begins or ends with a deletion (no aligned base would bound it); with trim also not with an insertion
+    c0, c1 = trim_range(cols, c0, c1, "ID" if trim else "D")
+    if c1 - c0 < 1 or not any(cols[i][0] in "=X" for i in range(c0, c1)):
         return None
     keep = list(range(c0, c1))
     segs = [keep]
@@ -196,9 +199,14 @@ def make_alignment(rng, cols, c0, c1, style="M", skip=None, soft=(0, 0), hard=(0
             return (a < rpos <= b) if kind == "I" else (a <= rpos < b)
         left = [i for i in keep if not removed(i) and cols[i][1] < a + (1 if cols[i][0] == "I" else 0)]
         right = [i for i in keep if not removed(i) and i not in set(left)]
-        if not left or not right or cols[left[-1]][0] in "ID" or cols[right[0]][0] in "ID":
+        if not left or not right:
             return None
-        if cols[left[-1]][1] != a - 1 or cols[right[0]][1] != b:
+        if cols[left[-1]][0] in ("ID" if trim else "D") or cols[right[0]][0] in ("ID" if trim else "D"):
+            return None
+        last_ref = [i for i in left if cols[i][0] != "I"]
+        if not last_ref or cols[last_ref[-1]][1] != a - 1 or cols[right[0]][1] != b:
+            return None
+        if not any(cols[i][0] in "=X" for i in left) or not any(cols[i][0] in "=X" for i in right):
             return None
         segs = [left, right]
     kinds = []
@@ -266,7 +274,7 @@ def truth_of(ref, cols, listed, carried, aln, overhang=10):
         indel = [i for i in mine if cols[i][0] in "ID"]
         if indel:
             b0, b1 = min(indel) - 1, max(indel) + 1
-            if b0 < 0 or b1 >= len(cols) or cols[b0][0] in "ID" or cols[b1][0] in "ID" or b0 not in kept or b1 not in kept:
+            if (b0 >= 0 and b0 in kept and cols[b0][0] in "ID") or (b1 < len(cols) and b1 in kept and cols[b1][0] in "ID"):
                 continue
         lo, hi = min(mine), max(mine)
         window = "clean"
@@ -282,8 +290,25 @@ def truth_of(ref, cols, listed, carried, aln, overhang=10):
                     break
                 need -= 1
                 i += step
-        out[idx] = (allele, window)
+        out[idx] = (allele, window, neighbour(cols, aln, min(mine), -1), neighbour(cols, aln, max(mine), 1))
     return out, touch
+
+
+def neighbour(cols, aln, i, step):
+    """what stands directly before (step -1) / after (step +1) hap column i in the alignment: M, I, D, N (reference skip),
+    S / H (clip) or end (nothing)"""
+    kept = aln["kept"]
+    j = i + step
+    if j in kept:
+        return "M" if cols[j][0] in "=X" else cols[j][0]
+    if min(kept) < j < max(kept):
+        return "N"
+    ops = [op for op, _ in aln["cigar"]]
+    edge = ops[:ops.index(next(o for o in ops if o not in "SH"))] if step < 0 else \
+        ops[len(ops) - [o not in "SH" for o in reversed(ops)].index(True):]
+    if not edge:
+        return "end"
+    return edge[-1] if step < 0 else edge[0]
 
 
 def quals_array(rng, n, mode):
